@@ -1,4 +1,5 @@
 HOOK_COMMITS = ["33a37d7"]
+FIX_COMMITS = ["22a3b9d", "0101a6c"]
 NOTES = ("All checks are property-based tests / fuzz targets over the real go-dcp code built from /repo's working tree "
          "(build tag verif). Exit 2 = inconclusive (build/infrastructure/budget), never a pass. See DESIGN.md.")
 NOT_APPLICABLE = {}
@@ -27,5 +28,35 @@ META = {
              "format->parse round trip; malformed strings by rapid and coverage-guided fuzzing must return tuple-or-error.",
         note="Gate expressions of dcp.go are replicated in the check (newDcp needs a live cluster); the serial-close gate is additionally "
              "observed behaviourally through stream.NewStream. Wire-level DCP_CONTROL gating is not observed (no Layer C).",
+    ),
+    "C01": dict(
+        technique="rapid stateful op-list generation against a settled-position reference model; crash injection at every step and inside multi-vBucket saves",
+        text="Generated histories of deliveries, in-order/delayed/batched/withheld acks, ok/rejected/in-flight saves and crashes (an in-flight save "
+             "applies any prefix of its per-vBucket writes in a generated order) run against the real stream, checkpoint and observers; at every "
+             "durable write the written seqno must be the resume position or an event settled before that save began, and after every crash the "
+             "restarted stream must be requested below the first unsettled event, which must be re-delivered. Search, not proof; the known "
+             "finding F1 (absorbed event overtaking a withheld ack) is excluded by construction, counted and replayed each run.",
+        note="Layer-A fakes (client/store/consumer) and the harness's reading of gocbcore's callback order are trusted; schedules inside the library "
+             "that the harness does not own are only sampled (DESIGN §7). File backend variant not covered by this unit (whole-state writes).",
+    ),
+    "C04": dict(
+        technique="rapid stateful op-lists (any ack order, repetitions, rebalance, old-session acks) + concurrent per-vBucket ackers against a max-settled model",
+        text="After every acknowledgement the tracked position (GetOffsets, TrackOffset stream, next save) must equal max(resume, settled) and "
+             "never move back; out-of-range acks must leave no trace. Concurrency across vBuckets is exercised with one goroutine per vBucket.",
+        note="Same-vBucket acks are serial (stated by the property); interleavings of different-vBucket acks are sampled by the Go scheduler, not enumerated.",
+    ),
+    "C05": dict(
+        technique="rapid stateful op-lists with store-fault injection and in-flight save windows against a durable-progress model; periodic ticker and Commit variants",
+        text="Every save outcome is checked: success => D_t0(v) <= stored(v) <= M_t1(v); a skipped save is a violation if advanced progress is not "
+             "durable; failures forget nothing; no write when nothing changed. Two defects found this way were repaired (fix: commits 0101a6c, "
+             "22a3b9d); their shrunk replays are re-run on every check.",
+        note="'timeout' of a store call is modelled as a rejected save (the Couchbase backend maps a deadline to an error); real-time ticker unit waits up to 5 s (typical 4 ms).",
+    ),
+    "C06": dict(
+        technique="rapid stateful op-lists over snapshot layouts with tuple-membership oracle (offset must equal one event's own 4-tuple); invalid-server injection",
+        text="Every delivered offset, TrackOffset argument and persisted document must be a member of the finite set of per-event tuples announced "
+             "by the harness's server model (excludes mixtures of two events/snapshots) and satisfy start<=seq<=end; an event outside its snapshot "
+             "must stop the client and never be delivered.",
+        note="vbUUID is the first failover entry handed to SetVbUUID by the fake client exactly as client.go does; wire-level check of that hand-over is in C08.",
     ),
 }
